@@ -270,7 +270,9 @@ class Lookup:
         for st in f.body[1:-1]:
             if not (isinstance(st, ast.If) and not st.orelse and len(st.body) == 1 and isinstance(st.body[0], ast.Continue)):
                 raise Refuse('SymdelDB.lookup: filter statement is not `if COND: continue` (line %d)' % st.lineno)
-            conds.append(self.cond(st.test))
+            # `if A or B: continue` is `if A: continue` followed by `if B: continue` (same evaluation order): one canonical text
+            for t_ in (st.test.values if isinstance(st.test, ast.BoolOp) and isinstance(st.test.op, ast.Or) else [st.test]):
+                conds.append(self.cond(t_))
         return tt, thr, used, conds
 
 
@@ -381,7 +383,8 @@ class Self(Lookup):
         for st in pb[2:-2]:
             if not (isinstance(st, ast.If) and not st.orelse and len(st.body) == 1 and isinstance(st.body[0], ast.Continue)):
                 raise Refuse('symdel self mode: filter statement is not `if COND: continue` (line %d)' % st.lineno)
-            conds.append(self.cond(st.test))
+            for t_ in (st.test.values if isinstance(st.test, ast.BoolOp) and isinstance(st.test.op, ast.Or) else [st.test]):
+                conds.append(self.cond(t_))
         return tt, thr, used, conds, skip1
 
 
